@@ -110,6 +110,20 @@ type Note struct {
 	Body  string          `json:"body"`
 }
 
+// taking the integer part of a decimal costs time and memory proportional to 10^|exponent|, so a position written as
+// 1e2000000000 can't be converted. No real note is anywhere near this.
+const maxNotePositionExponent = 100
+
+// HasValidPosition returns whether the position of this note can be migrated
+func (n *Note) HasValidPosition() bool {
+	for _, d := range []decimal.Decimal{n.X, n.Y} {
+		if exp := d.Exponent(); exp < -maxNotePositionExponent || exp > maxNotePositionExponent {
+			return false
+		}
+	}
+	return true
+}
+
 // Migrate migrates this note to a new sticky note
 func (n *Note) Migrate() Sticky {
 	return Sticky{
